@@ -177,6 +177,9 @@ func execC18(p *C18Plan, rc *simkit.RunCtx) {
 	sandbox := filepath.Join(e.base, "sb")
 	before := snapshot(sandbox, root)
 	rc.H("%s depth=%d names=%d", p.Comp, p.Depth, len(p.Names))
+	for i, segs := range p.Names {
+		rc.H("%s %q", p.Ops[i], joinName(segs, p.Lead[i], p.Trail[i]))
+	}
 
 	var st storage.Interface
 	var ds *utils.DirStructure
